@@ -79,12 +79,15 @@ type Task struct {
 	wakeAt   time.Duration
 	prio     int
 	lockWait bool // spinning on a cooperative lock: not enabled while another task can run
-	FSSteps  int  // intercepted storage calls made so far by this task
-	fn       func()
-	PanicV   any
-	Stack    string
-	Crashed  bool
-	Parent   int
+	// ReqID: event number of the request this task is serving (set by the environment); SpawnReq: the
+	// ReqID of the parent at the time this task was spawned by a `go` statement
+	ReqID, SpawnReq int64
+	FSSteps         int // intercepted storage calls made so far by this task
+	fn              func()
+	PanicV          any
+	Stack           string
+	Crashed         bool
+	Parent          int
 }
 
 const (
@@ -499,6 +502,7 @@ func (s *Sim) Go(site string, fn func()) {
 	}
 	t := s.NewTask("go@"+site, parent.Inst, -1, fn)
 	t.Parent = parent.ID
+	t.SpawnReq = parent.ReqID
 	s.Tracef("t%d go -> t%d %s", parent.ID, t.ID, site)
 	s.schedPoint(parent)
 }
